@@ -356,13 +356,40 @@ func (c *canon) term(t *Term, rename map[string]string) string {
 	return t.Op + ":" + t.Sym + "(" + args() + ")"
 }
 
+func (c *canon) poly(pl *Poly, rename map[string]string) string {
+	var monos []string
+	for k, cf := range pl.M {
+		if k == "" {
+			monos = append(monos, fmt.Sprintf("%d", cf))
+			continue
+		}
+		var fs []string
+		for _, a := range strings.Split(k, monoSep) {
+			fs = append(fs, c.term(pl.Atoms[a], rename))
+		}
+		sort.Strings(fs)
+		monos = append(monos, fmt.Sprintf("%d*%s", cf, strings.Join(fs, "*")))
+	}
+	sort.Strings(monos)
+	return strings.Join(monos, "+")
+}
+
 func (c *canon) path(p *Path, rename map[string]string) string {
 	var sb strings.Builder
 	ci := 0
 	emitCond := func(cd Cond) {
 		r := cd.Rel()
+		if pl, kind, ok := r.IntNorm(); ok {
+			// integer comparisons in polynomial normal form: n <= 0 and n < 1 coincide
+			fmt.Fprintf(&sb, "[%s %s 0]", c.poly(pl, rename), kind)
+			return
+		}
 		if r.B != nil {
-			fmt.Fprintf(&sb, "[%s %s %s]", c.term(r.A, rename), r.Op, c.term(r.B, rename))
+			a, b := c.term(r.A, rename), c.term(r.B, rename)
+			if (r.Op == "==" || r.Op == "!=") && b < a {
+				a, b = b, a
+			}
+			fmt.Fprintf(&sb, "[%s %s %s]", a, r.Op, b)
 		} else {
 			fmt.Fprintf(&sb, "[%s %s]", r.Op, c.term(r.A, rename))
 		}
